@@ -3035,7 +3035,8 @@ impl StrName {
                         let next = ps.next()?;
                         match next {
                             ';' => break,
-                            'a'..='z' | 'A'..='Z' => {}
+                            // names such as `&frac12;` contain digits after the first letter
+                            'a'..='z' | 'A'..='Z' | '0'..='9' => {}
                             _ => {
                                 return None;
                             }
